@@ -30,13 +30,25 @@ out.append("## 14. Seeded changes (independent sub-agents) and which checks catc
 out.append("Each change was produced by a fresh sub-agent that saw only the text of one property and its own scratch worktree,\n"
            "had to keep the 81 fixtures green, and supplied a demonstration test. `tools/validate_mutant.sh` re-confirmed in a scratch\n"
            "worktree that the demonstration passes on the clean tree and fails with the change, and that the fixtures still pass;\n"
-           "`tools/seed_matrix.py` then applied the change to /repo, ran the quick tier of all 20 checks and undid it. Files: `seeded/<id>/`.\n")
+           "`tools/seed_matrix.py` then applied the change (to /repo, or - to run several at once - to a private git worktree of /repo that a\n"
+           "private copy of the driver is built against), ran the quick tier of the property's own check and of its closest neighbours\n"
+           "(`checks_run` in each meta.json; `MATRIX_ALL=1` runs all 20) and undid it. Files: `seeded/<id>/`. Eight batches: a-c (rounds 1-2), d/e (round 3),\n"
+           "f (round 4), g (round 5), h (round 6); every later round was told what the earlier ones had produced and asked for different sites.\n"
+           "The last column is the honest record of what the checks missed when first confronted with the change, or - where it starts with\n"
+           "`predicted` - what was added after reading the sub-agent's description and before the first trial.\n")
+stats = {"n": 0, "own": 0, "missed_first": 0, "predicted": 0}
+for mf in sorted(glob.glob(f"{ROOT}/seeded/C*/meta.json")):
+    m = json.load(open(mf)); stats["n"] += 1; stats["own"] += 1 if m["caught_by_own_property_check"] else 0
+    im = m.get("initially_missed_by_own_check")
+    if im: stats["predicted" if im.startswith("predicted") else "missed_first"] += 1
+out.append(f"Totals: {stats['n']} seeded changes; {stats['own']} are caught by their own property's check on the final machinery; "
+           f"{stats['missed_first']} of them were missed by that check when first tried and {stats['predicted']} more were pre-empted from the description.\n")
 out.append("| seeded change | breaks | what it needs to manifest | caught by its own property's check | all checks that alarm (quick tier) | missed at first? what was strengthened |\n|---|---|---|---|---|---|")
 for mf in sorted(glob.glob(f"{ROOT}/seeded/C*/meta.json")):
     m = json.load(open(mf))
     name = os.path.basename(os.path.dirname(mf))
     det = ", ".join(f"{p} ({v['signatures'][0].split('/',1)[1][:50] if v['signatures'] else ''})" for p, v in sorted(m["detected_by"].items()))
-    out.append(f"| {name} | {m['property']} | {(m.get('needs') or '')[:220]} | {'yes' if m['caught_by_own_property_check'] else '**no** (the change only affects component hosts, which C03 owns)'} | {det or '**none**'} | {m.get('initially_missed_by_own_check') or '-'} |")
+    out.append(f"| {name} | {m['property']} | {(m.get('needs') or '')[:220]} | {'yes' if m['caught_by_own_property_check'] else '**no**'} | {det or '**none**'} | {m.get('initially_missed_by_own_check') or '-'} |")
 text = "\n".join(out) + "\n"
 p = f"{ROOT}/DESIGN.md"
 s = open(p).read()
